@@ -128,9 +128,10 @@ Theorem C01_order_refuted_wrapper : exists o, nelua_run fe_w e_wrapper st_w o <>
 Proof. exact order_refuted_wrapper. Qed.
 Print Assumptions C01_order_refuted_wrapper.
 
-Theorem C01_order_refuted_unflagged : exists o, nelua_run fe_w e_unflagged st_w o <> lua_run fe_w e_unflagged st_w.
-Proof. exact order_refuted_unflagged. Qed.
-Print Assumptions C01_order_refuted_unflagged.
+(* repaired in /repo 9e49985: a callee that only stores through a field is marked, its calls are sequenced *)
+Theorem C01_order_indirect_store_sequenced : forall o, nelua_run fe_w e_unflagged st_w o = lua_run fe_w e_unflagged st_w.
+Proof. exact order_indirect_store_sequenced. Qed.
+Print Assumptions C01_order_indirect_store_sequenced.
 
 (* the strongest true restriction: when no function writes a variable (their effects are events and
    values only) and every callee the analyzer leaves unmarked has unmarked arguments, the compiled
